@@ -153,6 +153,8 @@ impl QRCode {
 
         let mode = mode.unwrap_or_else(|| encode::best_encoding(input));
         let level = ecl.unwrap_or(ECL::Q);
+        #[cfg(fast_qr_verif)]
+        crate::verif::point("new.mode");
 
         let version = match Version::get(mode, level, input.len()) {
             Some(version) => version,
@@ -164,6 +166,8 @@ impl QRCode {
             Some(_) => return Err(QRCodeError::SpecifiedVersion),
         };
 
+        #[cfg(fast_qr_verif)]
+        crate::verif::point("new.version");
         let out = create_matrix(input, level, mode, version, &mut mask);
         Ok(out)
     }
